@@ -179,6 +179,18 @@ def fusedLoopsOK (shared : List String) (maxFused maxPerRv : Option Nat) (p : Pa
        | some m => ls.all (fun l => (ls.filter (fun l' => loopRv l' == loopRv l)).length ≤ m))
     else true)
 
+/-! ### Tolls -/
+
+def isToll : Node → Bool
+  | Node.toll _ _ => true
+  | _ => false
+
+/-- No Toll is the outermost holder of a tensor shared between Einsums. -/
+def tollNotOutermost (shared : List String) (p : Path) : Bool :=
+  shared.all (fun t => match p.nodes.find? (holds t) with
+    | some n => !isToll n
+    | none => true)
+
 /-! ### the whole predicate, as the list of failed checks (empty = valid) -/
 
 def failures (es : List EinsumSpec) (ps : List Path) (ks : List Keep) (fs : List Fanout) (lbs : List LoopBound) :
